@@ -185,7 +185,19 @@ fn main() {
             }
             // metamorphic: add one exception / one blocking rule
             for kind in ["exception_monotone", "blocking_monotone"] {
-                let pat = if r.chance(1, 2) { gen::pattern(&mut r) } else { url.split("://").nth(1).unwrap_or("x").split('/').next().map(|h| format!("||{}^", h)).unwrap() };
+                let pat = match r.below(3) {
+                    0 => gen::pattern(&mut r),
+                    1 => url.split("://").nth(1).unwrap_or("x").split('/').next().map(|h| format!("||{}^", h)).unwrap(),
+                    _ => {
+                        // a rule that competes with a listed rule for one of its index tokens: shares one
+                        // word of that rule's pattern (the bucket a rule is filed under depends on how
+                        // often each of its tokens is used by the other rules)
+                        let l = &lines[r.below(lines.len())];
+                        let body = l.trim_start_matches("@@").split('$').next().unwrap_or("");
+                        let words: Vec<&str> = body.split(|c: char| !c.is_ascii_alphanumeric()).filter(|w| w.len() > 1).collect();
+                        if words.is_empty() { gen::pattern(&mut r) } else { format!("/{}/{}.", r.pick(&words), r.pick(gen::VOCAB)) }
+                    }
+                };
                 let mut opts = vec![];
                 if r.chance(1, 4) { opts.push("important".to_string()) }
                 if r.chance(1, 4) { opts.push(format!("tag={}", r.pick(gen::TAGS))) }
